@@ -78,7 +78,8 @@ def nid(s):
     return i
 
 
-_WELL_KNOWN = ['self', 'cls', 'args', 'kwargs', 'a', 'b', 'x', 'zz', 'k0', 'x0', 'x1', 'Nope'] + [f'p{i}' for i in range(8)]
+_WELL_KNOWN = ['self', 'cls', 'args', 'kwargs', 'a', 'b', 'x', 'zz', 'k0', 'x0', 'x1', 'Nope', 'context', 'func', 'f', 'call', 'value', 'type_', 'err', 'key', 'result', 'k1', 'v'] \
+    + [f'p{i}' for i in range(8)]
 
 
 def name_of(i):
@@ -87,6 +88,8 @@ def name_of(i):
 
 CTX = {'P': P, 'C1': C1, 'C2': C2, 'G': G, 'U': U, 'MI': MI, 'Text': Text, 'Counter': Counter}
 USER = [P, C1, C2, G, U, MI, Text, Counter]
+# names a calling module may bind to something that is no class (string annotations naming them must still end in a verdict)
+ZCTX = {'_zmod': sys, '_znum': 5, '_zfun': len, '_znone': None, '_zstr': 'int', '_zlist': [int], '_zalias': typing.List[int]}
 SEQ = {'list': list, 'set': set, 'frozenset': frozenset, 'deque': collections.deque, 'sequence': collections.abc.Sequence,
        'iterable': collections.abc.Iterable, 'collection': collections.abc.Collection, 'container': collections.abc.Container,
        'abstractSet': collections.abc.Set, 'mutableSet': collections.abc.MutableSet, 'mutableSequence': collections.abc.MutableSequence}
@@ -583,7 +586,7 @@ def classify_exc(e):
 def run_assert(ann_obj, val_obj):
     from pedantic import assert_value_matches_type
     try:
-        assert_value_matches_type(val_obj, ann_obj, '', {}, context=dict(CTX))
+        assert_value_matches_type(val_obj, ann_obj, '', {}, context={**ZCTX, **CTX})
         return 'accept'
     except BaseException as e:
         return classify_exc(e)
